@@ -20,6 +20,9 @@ VERIF_ROOT = os.path.dirname(os.path.dirname(os.path.abspath(__file__)))
 PKG = 'ml_metrics'
 
 
+from mlmverif.canon import canonical  # noqa: E402
+
+
 class AnalysisError(Exception):
   """The checker cannot analyse what it must (exit 2, never a violation)."""
 
@@ -120,6 +123,33 @@ class ModuleInfo:
     return ast.get_source_segment(self.src, node) or ''
 
 
+def is_increment(s: ast.AST, name: str | None = None) -> bool:
+  """`n += 1` or `n = n + 1` / `n = 1 + n` on a plain name (optionally a given one)."""
+  if isinstance(s, ast.AugAssign) and isinstance(s.op, ast.Add) and isinstance(s.target, ast.Name) and (
+      isinstance(s.value, ast.Constant) and s.value.value == 1):
+    return name is None or s.target.id == name
+  if isinstance(s, ast.Assign) and len(s.targets) == 1 and isinstance(s.targets[0], ast.Name) and isinstance(
+      s.value, ast.BinOp) and isinstance(s.value.op, ast.Add):
+    t = s.targets[0].id
+    l, r = s.value.left, s.value.right
+    if (isinstance(l, ast.Name) and l.id == t and isinstance(r, ast.Constant) and r.value == 1) or (
+        isinstance(r, ast.Name) and r.id == t and isinstance(l, ast.Constant) and l.value == 1):
+      return name is None or t == name
+  return False
+
+
+def increment_target(s: ast.AST) -> str | None:
+  if is_increment(s):
+    return s.target.id if isinstance(s, ast.AugAssign) else s.targets[0].id
+  return None
+
+
+def cnorm(text: str) -> str:
+  """Canonical spelling of an expression/statement given as source text."""
+  from mlmverif.canon import canonical
+  return ast.unparse(canonical(ast.parse(text))).strip()
+
+
 def unparse(node: ast.AST | None) -> str:
   if node is None:
     return ''
@@ -207,7 +237,7 @@ class Repo:
         with open(os.path.join(self.root, rel), encoding='utf-8') as fh:
           src = fh.read()
       try:
-        tree = ast.parse(src, filename=rel)
+        tree = canonical(ast.parse(src, filename=rel))
       except SyntaxError as e:
         self.parse_errors.append(f'{rel}: {e}')
         continue
@@ -279,7 +309,7 @@ class Repo:
     r.modules = dict(self.modules)
     r.parse_errors = []
     for rel, src in overlay.items():
-      tree = ast.parse(src, filename=rel)
+      tree = canonical(ast.parse(src, filename=rel))
       modname = rel[:-3].replace(os.sep, '.')
       if modname.endswith('.__init__'):
         modname = modname[: -len('.__init__')]
